@@ -109,4 +109,55 @@ theorem listIndex_mem (xs : List Nat) (x : Nat) (h : x ∈ xs) : ∃ k, listInde
       obtain ⟨k, hk⟩ := ih this
       exact ⟨k + 1, by simp [hk]⟩
 
+/-! ### `sorted(xs, key=f, reverse=r)` with a key function that does not raise: a stable insertion sort on the elements -/
+
+/-- stable insertion by key `p`: ascending (`r = false`) or descending (`r = true`); `x` goes in front of the first element that
+    may not precede it, so elements with equal keys stay in their original order in both directions -/
+def stableInsert {α : Type} (p : α → Nat) (r : Bool) (x : α) : List α → List α
+  | [] => [x]
+  | y :: ys => if (if r then p y ≤ p x else p x ≤ p y) then x :: y :: ys else y :: stableInsert p r x ys
+def stableSort {α : Type} (p : α → Nat) (r : Bool) : List α → List α
+  | [] => []
+  | x :: xs => stableInsert p r x (stableSort p r xs)
+
+theorem mapM_ok {α β : Type} (f : α → M β) (g : α → β) (hf : ∀ x, f x = .ok (g x)) (xs : List α) :
+    xs.mapM f = .ok (xs.map g) := by
+  induction xs with
+  | nil => rfl
+  | cons x xs ih => simp [List.mapM_cons, hf, ih, bind, Except.bind, pure, Except.pure]
+
+theorem insertByKey_decorated {α : Type} (p : α → Nat) (r : Bool) (x : α) (l : List α) :
+    insertByKey r (p x, x) (l.map fun y => (p y, y)) = (stableInsert p r x l).map fun y => (p y, y) := by
+  induction l with
+  | nil => rfl
+  | cons y ys ih =>
+    simp only [List.map_cons, insertByKey, stableInsert]
+    by_cases h : (if r then p y ≤ p x else p x ≤ p y)
+    · rw [if_pos h, if_pos h]; rfl
+    · rw [if_neg h, if_neg h, ih]; rfl
+
+theorem foldr_insertByKey {α : Type} (p : α → Nat) (r : Bool) (xs : List α) :
+    ((xs.map p).zip xs).foldr (insertByKey r) [] = (stableSort p r xs).map fun y => (p y, y) := by
+  induction xs with
+  | nil => rfl
+  | cons x xs ih => simp only [List.map_cons, List.zip_cons_cons, List.foldr_cons, ih, stableSort, insertByKey_decorated]
+
+/-- a key function that never raises and computes `p`: `sorted(xs, key=…, reverse=r)` raises nothing and is the stable sort by `p` -/
+theorem sortedByKeyM_ok {α : Type} (f : α → M Nat) (p : α → Nat) (hf : ∀ x, f x = .ok (p x)) (r : Bool) (xs : List α) :
+    sortedByKeyM f r xs = .ok (stableSort p r xs) := by
+  unfold sortedByKeyM
+  rw [mapM_ok f p hf]
+  simp only [bind, Except.bind, pure, Except.pure, foldr_insertByKey, List.map_map]
+  congr 1
+  induction (stableSort p r xs) with
+  | nil => rfl
+  | cons y ys ih => simp only [List.map_cons, Function.comp, ih]
+
+example : stableSort (·.1) false [(3, 10), (1, 11), (3, 12), (2, 13), (1, 14)] = [(1, 11), (1, 14), (2, 13), (3, 10), (3, 12)] := by decide
+example : stableSort (·.1) true [(3, 10), (1, 11), (3, 12), (2, 13), (1, 14)] = [(3, 10), (3, 12), (2, 13), (1, 11), (1, 14)] := by decide
+example : sortedByKeyM (fun x : Nat × Nat => pure x.1) true [(3, 10), (1, 11), (3, 12), (2, 13), (1, 14)]
+    = .ok [(3, 10), (3, 12), (2, 13), (1, 11), (1, 14)] := by decide
+example : sortedByKeyM (fun x : Nat × Nat => if x.1 = 2 then throw .keyError else pure x.1) true [(3, 10), (2, 13)] = .error .keyError := by
+  decide
+
 end OdxVerif.Py
